@@ -1,5 +1,6 @@
 import MindsVerif.Model.TokStr
 import MindsVerif.Gen.C16Data
+import MindsVerif.Model.MultiWord
 /-! Line protocol driver for `tokens_to_string` + token actions.
 input : tokens separated by one blank; token = `<ty>:<lineno>:<index>:<src>[:<value>]`
         ty ∈ q (QUOTE_STRING) d (DQUOTE_STRING) v (VARIABLE) s (SYSTEM_VARIABLE) o (other);
@@ -7,7 +8,7 @@ input : tokens separated by one blank; token = `<ty>:<lineno>:<index>:<src>[:<va
         without `<value>` the value is computed by the model's token action under the live `Gen.C16Data.actCfg`.
 output: `<out> | <value;value;…> | wf=<0|1> closed=<0|1> verbatim=<0|1>`
         out = code points of tokensToString; closed: out = render; verbatim: out = verbatim -/
-open MindsVerif.TokStr
+open MindsVerif.TokStr MindsVerif.MultiWord
 
 def decStr (s : String) : Option Str :=
   if s.isEmpty then some [] else
@@ -31,14 +32,31 @@ def decTok (s : String) : Option Tok :=
 
 def b2s (b : Bool) : String := if b then "1" else "0"
 
+/-- `mw <NAME> <prev code point or -> <text code points>` → `some <n>` / `none` / `no-such-keyword` -/
+def handleMW (name prev text : String) : String :=
+  match MindsVerif.Gen.C16Data.multiWordRe.find? (fun x => x.1 == name) with
+  | none => "no-such-keyword"
+  | some (_, re) =>
+    match parseMW re.toList, decStr text with
+    | some k, some s =>
+      let pv : Option Char := if prev == "-" then none else prev.toNat?.map Char.ofNat
+      match mwMatch k pv s with
+      | some n => s!"some {n}"
+      | none => "none"
+    | _, _ => "unparsed"
+
 def handle (line : String) : String :=
-  let parts := (line.trimAscii.toString.splitOn " ").filter (· ≠ "")
-  match parts.mapM decTok with
-  | none => "bad-line"
-  | some toks =>
-    let out := tokensToString toks
-    encStr out ++ " | " ++ ";".intercalate (toks.map (fun t => encStr t.value)) ++
-      s!" | wf={b2s (WfBy (·.value) toks)} closed={b2s (out == render toks)} verbatim={b2s (out == verbatim toks)}"
+  match (line.trimAscii.toString.splitOn " ") with
+  | ["mw", name, prev, text] => handleMW name prev text
+  | ["mw", name, prev] => handleMW name prev ""
+  | _ =>
+    let parts := (line.trimAscii.toString.splitOn " ").filter (· ≠ "")
+    match parts.mapM decTok with
+    | none => "bad-line"
+    | some toks =>
+      let out := tokensToString toks
+      encStr out ++ " | " ++ ";".intercalate (toks.map (fun t => encStr t.value)) ++
+        s!" | wf={b2s (WfBy (·.value) toks)} closed={b2s (out == render toks)} verbatim={b2s (out == verbatim toks)}"
 
 partial def loop (h : IO.FS.Stream) (out : IO.FS.Stream) : IO Unit := do
   let line ← h.getLine
